@@ -596,7 +596,9 @@ Proc(e) ==
       [] e.ev = "conv" ->
             \* C10: integer -> key bytes by value and by reference, and back (AbyCodec)
             [base EXCEPT !.fails =
-                (IF e.byv = KeyBytesOf(e.kt, e.x4) THEN {} ELSE {"C10.conv_bytes"})
+                \* the released ENCODING of an integer key (u64/i64 little endian, vu64) is C12's business (files written by
+                \* the release must stay addressable); C10 itself demands the round trip and the agreement only
+                (IF e.byv = KeyBytesOf(e.kt, e.x4) THEN {} ELSE {"C12.key_bytes"})
                 \cup (IF e.byr = e.byv THEN {} ELSE {"C10.conv_agree"})
                 \cup (IF e.kt \in {"u64", "i64", "vu64"} /\ e.back4 # e.x4 THEN {"C10.conv_back"} ELSE {})
                 \cup (IF e.kt \in {"u64", "i64", "vu64"} /\ IntBackOf(e.kt, e.byv) # e.x4 THEN {"C10.conv_back"} ELSE {})]
@@ -655,12 +657,12 @@ Proc(e) ==
 
 \* binding of AbyReg!OneInstance (hook verif_instance_id): every handle obtained for a map name while the
 \* database is open - first lookup, repeated lookup with or without parameters, through a cloned database
-\* handle, clone of a handle - denotes ONE buffered instance
+\* handle, clone of a handle - denotes ONE buffered instance (design drift otherwise, not a verdict)
 InstStep(e, a) ==
     IF e.ev \in {"drop_all", "new_process", "kill_here", "open_db", "reset"} THEN [inst |-> <<>>, fails |-> {}]
     ELSE IF e.ev \in {"map", "clone_h"} /\ Has(e, "inst") /\ Has(e, "m") /\ e.outcome = "ok"
     THEN IF e.m \in DOMAIN a.inst
-         THEN [inst |-> a.inst, fails |-> IF a.inst[e.m] = e.inst THEN {} ELSE {"C11.one_instance"}]
+         THEN [inst |-> a.inst, fails |-> IF a.inst[e.m] = e.inst THEN {} ELSE {"DRIFT.one_instance"}]
          ELSE [inst |-> Set(a.inst, e.m, e.inst), fails |-> {}]
     ELSE [inst |-> a.inst, fails |-> {}]
 
@@ -679,7 +681,10 @@ Next ==
             /\ UNCHANGED <<mem, meta, st, last, aux>>
        ELSE LET r0 == Proc(e)
                 is == InstStep(e, r0.aux)
-                r  == [r0 EXCEPT !.fails = @ \cup is.fails, !.aux = [@ EXCEPT !.inst = is.inst]]
+                \* a second buffered instance is a departure from the DESIGN (AbyReg!OneInstance), reported as drift: the
+                \* property (C11) is judged by what the handles observe
+                r  == [r0 EXCEPT !.drift = IF is.fails # {} /\ @ = "" THEN "a second buffered instance behind a handle of an open map (AbyReg!OneInstance)" ELSE @,
+                                 !.aux = [@ EXCEPT !.inst = is.inst]]
             IN
             /\ mem' = r.mem /\ meta' = r.meta /\ st' = r.st /\ last' = r.last
             /\ aux' = IF r.fails # {} /\ e.ev # "reset" THEN [r.aux EXCEPT !.nf = r.aux.nf + 1] ELSE r.aux
